@@ -42,6 +42,69 @@ def short(k):
     return k.replace("crate::", "")
 
 
+OVF_CONFIG = "all-ovf"
+
+
+def totality_ovf(ctx):
+    """Totality over the facts built with -C overflow-checks=on; reviewed rows = total rows + overflow rows."""
+    k = ("ovf", OVF_CONFIG)
+    if k not in _T:
+        table = {fn: list(rows) for fn, rows in ctx.table("total").items()}
+        for fn, rows in ctx.table("overflow").items():
+            table.setdefault(fn, []).extend(rows)
+        _T[k] = total.Totality(ctx.prog(OVF_CONFIG), table, cfg_set=ctx.cfgs())
+    return _T[k]
+
+
+def run_overflow(ctx, spec, floor, label=""):
+    """The overflow-checks clause: in a build with arithmetic overflow checks (every debug build) no total entry
+    point reaches an undischarged `attempt to <op> with overflow` assertion outside the kernels."""
+    rep = Report("R-TOTAL/overflow-checks", "with -C overflow-checks=on (debug builds) no total entry point reaches an "
+                 "arithmetic-overflow assertion that the interval interpretation (operand ranges, checked-pair "
+                 "modelling, relational window facts, caller refutation of operand guards) cannot discharge; sites "
+                 "inside algorithms:: are the kernels' value contract and are not inventoried")
+    prog = ctx.prog(OVF_CONFIG)
+    T = totality_ovf(ctx)
+    entries = select_entries(prog, spec)
+    cfgs = ctx.cfgs()
+    n_sites = 0
+    for e in entries:
+        body = prog.bodies[e]
+        generic = prog.is_cfg_generic(body)
+        per_site = {}
+        for cfg in (cfgs if generic else [None]):
+            for r in T.residuals(e, cfg):
+                if not r.origin_kind.startswith("assert:Overflow"):
+                    continue   # every other kind is reported by R-TOTAL proper
+                d = per_site.setdefault(r.site_key(), {"cfgs": [], "r": r})
+                if cfg not in d["cfgs"]:
+                    d["cfgs"].append(cfg)
+                if len(r.chain) < len(d["r"].chain):
+                    d["r"] = r
+        where = "%s:%s" % (body["file"], body["line"])
+        if not per_site:
+            rep.ok(short(e), where, "no undischarged overflow assertion")
+            continue
+        for sk, d in sorted(per_site.items()):
+            r = d["r"]
+            cf = ", ".join("(%d,%d)" % c if c else "-" for c in d["cfgs"][:8]) + ("..." if len(d["cfgs"]) > 8 else "")
+            rep.violation("%s->%s" % (short(e), short(sk)), where,
+                          "entry reaches `%s` at %s, which panics in builds with overflow checks and is not discharged "
+                          "in configuration(s) %s; call chain: %s" % (
+                              short(r.origin_what), r.origin_where, cf, " -> ".join(short(c) for c in r.chain)))
+    ovf_rows = ctx.table("overflow")
+    for (fn, kind, what) in sorted(T.table_used, key=str):
+        rows = [r for r in ovf_rows.get(fn, []) if r.get("kind") == kind and r.get("what") == what]
+        if rows:
+            rep.table("row:%s|%s|%s" % (short(fn), kind, what), "", rows[0].get("reason", ""))
+    n_sites = sum(1 for lg in T.discharge_log if lg[2].startswith("assert:Overflow"))
+    rep.analysed = {"build_config": OVF_CONFIG, "entries": len(entries), "configurations": len(cfgs),
+                    "overflow_assertions_discharged_by_intervals": n_sites, "label": label}
+    rep.floor("entries-ovf" + ("-" + label if label else ""), len(entries), floor)
+    rep.floor("overflow-assertions-discharged", n_sites, 50)
+    return rep
+
+
 def run(ctx, spec, floor, config="all", label="", own_only=False):
     rep = Report("R-TOTAL", "every entry point that promises to be total (checked_/overflowing_/saturating_/wrapping_ "
                  "forms, try_from_*, decoders, parsers) reaches no panic site that is not discharged by a dominating "
